@@ -53,6 +53,18 @@ CLAIMED = {
             'significant digits shown is sig (sig+1 after a carry). The model runs in exact rational arithmetic and must reproduce str/format of the '
             'implementation character by character on every generated case; the read-back clause is also evaluated directly on the implementation.',
             'Lean kernel; standard axioms; np.floor(np.log10(d)) enters as an input with a checked contract; CPython float formatting / parsing trusted.', '5 C19'),
+    'C04': ('Lean 4 theorems about the constructor / normalisation / propagation models (invariant established, malformed requests rejected, invariant preserved) + invariant evaluated by the Lean driver and by an independent python predicate on every object the implementation returns + exhaustive operand-kind table',
+            'Proof: the constructor model (check by check as in Obs.__init__) establishes the invariant and rejects each listed malformed request, the '
+            'configuration-list normalisation yields a range exactly when equally spaced, and derived_observable preserves the invariant (theorem list in '
+            'the evidence). Every object produced by random sequences over all public producers is dumped and judged by the Lean predicate and by the '
+            'statement written in python; the closure clause is decided on the full operand-kind table.',
+            'Lean kernel; standard axioms; fits / roots / I/O internals only through the objects they return; Covobs validation (symmetry, eigenvalues) by correspondence only.', '5 C04'),
+    'C05': ('Lean 4 theorems (selection by configuration number, rejections, flag, sample-wise products, union of chains) + model/impl correspondence + by-configuration-number table oracle',
+            'Proof: _reduce_deltas selects by configuration number and fails when a configuration is missing; correlate yields the per-configuration '
+            'products and refuses differing chains / lists; merge_obs yields the union of chains with samples unchanged and refuses duplicate replicas; '
+            'reweighted results carry the flag (theorem list in the evidence). The executable model is compared with pyerrors, and a table oracle '
+            '{chain: {config: sample}} of the statement is evaluated on every case incl. list members on different equal-length subsets and Corr.',
+            'Lean kernel; standard axioms; the final division of reweight is the C01 truediv site; generator-bounded search.', '5 C05'),
 }
 
 NOT_YET = {}
